@@ -139,6 +139,9 @@ func Binning(l *List, st funcGen.Stack[Value]) (Value, error) {
 		return nil, err
 	}
 
+	if !(size > 0 && count >= 0 && count <= math.MaxInt32) {
+		return nil, errors.New("binning requires a positive size and a non negative count")
+	}
 	b := newBinning(start, size, int(count))
 	for v, err := range l.Iterate(st) {
 		if err != nil {
@@ -206,6 +209,9 @@ func Binning2d(l *List, st funcGen.Stack[Value]) (Value, error) {
 		return nil, err
 	}
 
+	if !(xSize > 0 && xCount >= 0 && xCount <= math.MaxInt32 && ySize > 0 && yCount >= 0 && yCount <= math.MaxInt32) {
+		return nil, errors.New("binning2d requires positive sizes and non negative counts")
+	}
 	b := New2d(xStart, xSize, int(xCount), yStart, ySize, int(yCount))
 	for v, err := range l.Iterate(st) {
 		if err != nil {
